@@ -80,6 +80,10 @@ def wide_shapes():
     out.append("O(%s)" % ",".join(["C(l,l,l)"] * 52))
     # more than 255 composite prongs below an orthogonal region (the prong counts are Long; TASK_CAPACITY = 2 * prongs)
     out.append("O(%s)" % ",".join(["C(%s)" % _leaves(16)] * 16))
+    # widths on both sides of every power of two up to the widest region a Short prong index can address: the number of bits
+    # of the active / resumable prong fields (bitContain ladder) changes exactly there
+    for w in (31, 32, 33, 63, 64, 65, 127, 128, 129, 130, 200, 254):
+        out.append("C(%s)" % _leaves(w))
     return out
 
 
@@ -226,6 +230,11 @@ def emit_shape(idx, dsl, group, peer):
     out += _grab(ns, "S", "FSM", "")
     out.append("\tconst vt17::StaticDump sd = vt17::grabStatic<FSM>();")
     out.append("\tvt17::checkStatic(cx, sd, sid, rid, con);")
+    # the other copies of the accessor pair (Instance, State base, ConstControl, Control = what callbacks see through their control)
+    for tag, cls in (("I", "FSM::Instance"), ("B", "FSM::State"), ("CC", "FSM::ConstControl"), ("C", "FSM::Control")):
+        out.append("\t{")
+        out += ["\t" + l for l in _grab(ns, "S", cls, tag)[:2]]
+        out.append('\tvt17::checkAccessorCopy(cx, "%s", sid, rid, sid%s, rid%s); }' % (cls[5:], tag, tag))
     if peer:
         out.append('\tvt17::Cx cxb(SH, "peer B: ");')
         out += _grab(ns, "T", "FSMB", "B")
